@@ -52,6 +52,8 @@ META = {
         "Pyoda.GenAgree.C14.gen_MapZone_read_eq", "Pyoda.GenAgree.C14.gen_ZoneLocation_read_eq",
         "Pyoda.GenAgree.C14.gen_WindowsZones_read_loop1_eq", "Pyoda.GenAgree.C14.gen_WindowsZones_read_eq",
         "Pyoda.GenAgree.C14.gen_Zone1970Location_read_loop1_eq", "Pyoda.GenAgree.C14.gen_Zone1970Location_read_eq",
+        "Pyoda.GenAgree.C14.gen_FixedZone_read_eq", "Pyoda.GenAgree.C14.gen_AltMap_read_eq",
+        "Pyoda.GenAgree.C14.gen_PrecalcZone_read_loop1_eq", "Pyoda.GenAgree.C14.gen_PrecalcZone_read_eq",
         "Pyoda.GenAgree.C14S.gen_Field_ctor_eq", "Pyoda.GenAgree.C14S.gen_Field_getId_eq",
         "Pyoda.GenAgree.C14S.gen_readFields_step", "Pyoda.GenAgree.C14S.gen_Field_readFieldsNext_loop1_eq",
         "Pyoda.GenAgree.C14S.gen_Field_readFieldsNext_eq",
@@ -77,7 +79,7 @@ META = {
         "Python str <-> UTF-8 bytes is a bijection on strings without lone surrogates (the model keeps strings as their encodings)",
         "bit operations of the code (&, |, >>, <<) equal the arithmetic forms used in the model on the stated ranges (sampled by suite codec.prim)",
         "io.BytesIO read/write semantics",
-        "translator tie (tools/py2lean.py; GenAgreeC14 / GenAgreeC14W): _DateTimeZoneReader, _DateTimeZoneWriter, one next() of _TzdbStreamField._read_fields and the readers _ZoneYearOffset.read / _ZoneRecurrence.read / MapZone._read / TzdbZoneLocation._read are re-translated from the source on every run as state-passing functions over the object state and proved equal to the reader state machine of Codec/Session.lean / the pure writers of Codec/Prim.lean. Assumed: stream.read(n) keeps the RawIOBase contract (PolicyOk: >= 1 byte unless at the end, <= n) and the bytes are < 256; stream.write accepts the whole buffer; Offset/Instant/Duration members are the model's (tied by GenAgreeC03); _EPOCH_FOR_MINUTES_SINCE_EPOCH = Instant.from_utc(1800,1,1,0,0) is the model's EPOCH1800 (correspondence); str.encode/bytes.decode are the identity / strict UTF-8 check on encodings; the translator's own semantics (self-test oracle of C03)",
+        "translator tie (tools/py2lean.py; GenAgreeC14 / GenAgreeC14W): _DateTimeZoneReader, _DateTimeZoneWriter, one next() of _TzdbStreamField._read_fields and the readers _ZoneYearOffset.read / _ZoneRecurrence.read / MapZone._read / TzdbZoneLocation._read / _FixedDateTimeZone.read / _StandardDaylightAlternatingMap._read / _PrecalculatedDateTimeZone._read (= readFixed / readAlternatingMap / readPrecalculated, the constructors' checks being the model's zoneIntervalCtor / alternatingMapCtor / precalculatedCtor) are re-translated from the source on every run as state-passing functions over the object state and proved equal to the reader state machine of Codec/Session.lean / the pure writers of Codec/Prim.lean. Assumed: stream.read(n) keeps the RawIOBase contract (PolicyOk: >= 1 byte unless at the end, <= n) and the bytes are < 256; stream.write accepts the whole buffer; Offset/Instant/Duration members are the model's (tied by GenAgreeC03); _EPOCH_FOR_MINUTES_SINCE_EPOCH = Instant.from_utc(1800,1,1,0,0) is the model's EPOCH1800 (correspondence); str.encode/bytes.decode are the identity / strict UTF-8 check on encodings; the translator's own semantics (self-test oracle of C03)",
         "sessions: the caller's operations on the shared pool list (clear, slice assignment, append) and the reader's one-byte look-ahead are what PoolAct.apply / RState describe (suite codec.sessions drives one real writer and one real reader per session)",
     ],
     "partial": [
